@@ -104,6 +104,45 @@ class RealGraphs:
             }
 
 
+OWNER_KINDS = (ast.If, ast.While, ast.For, ast.Try, ast.ExceptHandler)
+
+
+def stmt_edge_failures(rg):
+    """Direct oracle for 'the per-statement entry/exit edge sets agree with the node graph' on the REAL graphs:
+    for every if/while/for/try/except statement s of the function, with inside(s) = graph nodes whose AST node lies
+    lexically in s (computed from the AST, not from the builder's bookkeeping):
+        stmt_next[s] == { b | (a, b) edge, a in inside(s), b not in inside(s) }      (stmt_prev dually)
+    and s is a key of the maps iff inside(s) is not empty."""
+    bad = []
+    idof = rg.ser.id_of
+    for fid, g in rg.graphs.items():
+        raw = rg.raw[fid]
+        fnode = rg.ser.nodes[fid]
+        members = {id(k): idof(k) for k in raw.index}
+        edges = [tuple(e) for e in g['edges']]
+        seen_keys = set()
+        for s in ast.walk(fnode):
+            if not isinstance(s, OWNER_KINDS):
+                continue
+            sid = idof(s)
+            inside = {members[id(d)] for d in ast.walk(s) if id(d) in members}
+            if not inside:
+                if sid in g['next'] or sid in g['prev']:
+                    bad.append('statement #%s owns no node but is a key of stmt_next/stmt_prev' % sid)
+                continue
+            seen_keys.add(sid)
+            nxt = sorted({b for a, b in edges if a in inside and b not in inside})
+            prv = sorted({a for a, b in edges if b in inside and a not in inside})
+            if g['next'].get(sid) != nxt:
+                bad.append('stmt_next of statement #%s is %s, edges leaving its extent go to %s' % (sid, g['next'].get(sid), nxt))
+            if g['prev'].get(sid) != prv:
+                bad.append('stmt_prev of statement #%s is %s, edges entering its extent come from %s' % (sid, g['prev'].get(sid), prv))
+        extra = set(g['next']) | set(g['prev'])
+        if not extra <= seen_keys:
+            bad.append('stmt_next/stmt_prev have keys that are not enclosing statements with nodes: %s' % sorted(extra - seen_keys))
+    return bad
+
+
 def parse_model_graphs(text):
     """Answer of `c05.graph` -> (error or None, {fid: graph dict in the same shape as RealGraphs.graphs})."""
     x = common.parse_sexp(text)
